@@ -291,7 +291,9 @@ def apply_one(eng, st, fr, it, inp, rt, site):
             outs.append(("err", ns, mk_incomplete(eng, rt, tl.sub(ln)) if mode == "streaming" else mk_error(eng, rt, 1, "tag")))
         except Dead:
             pass
-        outs.append(("err", st.fork(), mk_error(eng, rt, 1, "tag")))
+        ms = st.fork()
+        eng.key_outcome(ms, "tag", "mismatch")
+        outs.append(("err", ms, mk_error(eng, rt, 1, "tag")))
         return outs
     if ctor == "take_while_m_n":
         m, n, pred, mode = a
